@@ -288,11 +288,11 @@ QXV_DRIVER(framing)
             for (int i = 0; ok && i < count; i++) {
                 QVector<int> cuts;
                 if (i % 4 == 3) {
-                    // dense: every offset is a cut with probability 1/2, 1/5 or 1/20
-                    static const int dens[] = { 2, 5, 20 };
-                    const int d = dens[ctx.rnd(3)];
+                    // dense: every offset is a cut with probability t/n, t = 8, 24 or 64 expected cuts
+                    static const int target[] = { 8, 24, 64 };
+                    const int t = target[ctx.rnd(3)];
                     for (int p = 1; p < n; p++) {
-                        if (ctx.rnd(d) == 0) {
+                        if (int(ctx.rnd(n)) < t) {
                             cuts.append(p);
                         }
                     }
